@@ -93,8 +93,12 @@ class World:
         self.returns = []              # (response path, value returned by an explicit resolver)
         self.schema_hook_calls = []    # schema-level pass-through hooks (@vtpass) entered for this request
         self.dir_calls = []            # (directive, path, canon(directive_args), args) recorded by @vtrec
+        self.share_values = False      # the SAME Python object is returned whenever one field instance is resolved again
+        self._shared = {}              # (through another alias / merged node): the engine must not write into resolver data
+        self.p_long = 0.0              # probability that a list of leaves is LONG (513 / 600 / 1030 items: size boundaries)
         self.p_null_nonnull = 0.0      # probability of null data at a non-null position (C01: "any resolver data")
         self.mutate_args = False       # resolvers scribble over the argument containers they were given (C15)
+        self.arg_fault_kind = "raise"  # or "raise_tf": the failing argument hook raises a library-derived error
         self.arg_faults = set()        # (field name, argument name): the @vtgate argument hook raises (C08)
         self.shared_exc = None         # ONE exception instance raised by every "raise_shared" fault (known finding F11)
         self.label = None              # bundle label (C17): closures registered for another schema name must not run
@@ -126,10 +130,16 @@ class World:
         self.insts.setdefault(key, (T, fname, v))
         fault = self.faults.get(key)
         if fault is None:
+            if self.share_values:
+                v = self._shared.setdefault(key, v)
             return ("value", v, key)
         kind = fault[0]
-        if kind in ("raise", "raise_tf", "raise_shared"):
+        if kind in ("raise", "raise_tf", "raise_odd", "raise_shared"):
             return (kind, None, key)
+        if self.share_values:
+            if key not in self._shared:
+                self._shared[key] = self.apply_fault(v, fault, T, fname, key)
+            return ("value", self._shared[key], key)
         return ("value", self.apply_fault(v, fault, T, fname, key), key)
 
     def gen_value(self, rng, t, ident, T, f, nonnull=False):
@@ -143,6 +153,9 @@ class World:
             return None     # resolver data may be null where the schema says non-null: a field error the reference predicts
         if t[0] == "L":
             n = rng.choice([0, 1, 2, 2, 3])
+            if self.p_long and t[1][0] != "L" and not (t[1][0] == "NN" and t[1][1][0] == "L") \
+                    and self.s.kind(named_of(t[1])) in ("SCALAR", "ENUM") and rng.random() < self.p_long:
+                n = rng.choice([513, 600, 1030])
             return [self.gen_value(rng, t[1], "%s#%d" % (ident, i), T, f) for i in range(n)]
         name = t[1]
         kind = self.s.kind(name)
@@ -242,7 +255,7 @@ class World:
         if out[0] == "raise_shared":
             self.fired.append(out[2])
             raise self.shared_exc
-        if out[0] in ("raise", "raise_tf"):
+        if out[0] in ("raise", "raise_tf", "raise_odd"):
             self.fired.append(out[2])
             raise make_exception(out[0], out[2])
         if out[2] in self.faults:
@@ -297,7 +310,7 @@ class World:
     def applicable_faults(self, T, fname, v):
         """Fault specs (kind, item path) meaningful for this field instance's value v."""
         f = self.s.types[T].fields[fname]
-        out = [("raise",), ("raise_tf",), ("ret_exc",), ("null",)]
+        out = [("raise",), ("raise_tf",), ("raise_odd",), ("ret_exc",), ("null",)]
 
         def walk(t, val, ip):
             tt = t[1] if t[0] == "NN" else t
@@ -344,9 +357,9 @@ class World:
             _scribble(args)
         if out[0] == "raise_shared":
             raise self.shared_exc
-        if out[0] in ("raise", "raise_tf"):
+        if out[0] in ("raise", "raise_tf", "raise_odd"):
             raise make_exception(out[0], out[2])
-        self.returns.append((tuple(info.path.as_list()), out[1]))
+        self.returns.append((tuple(info.path.as_list()), out[1], named_of(self.s.types[T].fields[fname].type)))
         return out[1]
 
     def event(self, i, type_name):
@@ -425,9 +438,20 @@ def make_shared_exception():
     return SharedUserError("shared user error instance", extensions={"code": "E_SHARED"})
 
 
+class UnprintableError(Exception):
+    """An application exception whose __str__ itself fails (a formatting bug, a too-long int on 3.12, ...)."""
+
+    def __str__(self):
+        raise RuntimeError("this exception cannot be printed")
+
+
 def make_exception(kind, key):
     if kind == "raise":
         return InjectedError("boom at %s" % key)
+    if kind == "raise_odd":
+        # exceptions that are awkward to REPORT: unprintable, or the library's own container class without content
+        from tartiflette.types.exceptions.tartiflette import MultipleException
+        return [UnprintableError(), MultipleException(), MultipleException([InjectedError("inner boom at %s" % key)])][len(key) % 3]
     from tartiflette.types.exceptions.tartiflette import TartifletteError
 
     class UserError(TartifletteError):
